@@ -5,6 +5,8 @@
 import GormModel.Model.Migrate
 import GormModel.Lemmas.Migrate
 import GormModel.Lemmas.MigrateReorder
+import GormModel.Lemmas.MigrateReach
+import GormModel.Gen.MigrateOptFacts
 namespace Gorm.Mig
 
 /-- CORE LEMMA.  For EVERY field declaration, MigrateColumn on the column report of a faithful dialect issues nothing:
@@ -576,5 +578,87 @@ example : ModelMatches uModel [(['t'], { cols := [(['n'], uReflect uField)], con
   · intro h; cases h
   · intro h; cases h
   · intro _; rfl
+
+/-! ### configuration switches: what they may switch off (Model/MigrateOpts.lean, Lemmas/MigrateReach.lean) -/
+
+/-- Everything the requested models NEED is on the list AutoMigrate works through (`ReorderModels(values, true)`): the
+    requested models, the join table of each of their many2many relations (and the far side when parsed first), and —
+    transitively — the reference schema of every constraint an already listed model owns (belongs-to parents; both ends
+    of a join table).  Fuel sufficiency of the model's recursion is part of the proof. -/
+theorem C20_reorder_needs (g : List ModelDeps) (values : List Str) :
+    ∀ t, Needs g values t → t ∈ reorderModels g values true := reorder_needs g values
+
+/-- `DisableForeignKeyConstraintWhenMigrating` does not change the list of tables AutoMigrate creates / reconciles -/
+theorem C20_fk_option_keeps_tables (o : MigOpts) (ms : List ModelRels) (values : List Str) (autoAdd : Bool) :
+    reorderModelsOpt o ms values autoAdd = reorderModelsOpt { o with disableFK := false } ms values autoAdd :=
+  reorderModelsOpt_disableFK o ms values autoAdd
+
+/-- whatever the foreign-key switch says (relationships not ignored): the parent a belongs-to field of a requested model
+    references — reference schema of a constraint the model owns, not switched off by `constraint:-` — is auto-added -/
+theorem C20_parent_auto_added_whatever_fk_option (o : MigOpts) (ho : o.ignoreRel = false) (ms : List ModelRels)
+    (values : List Str) (m : ModelRels) (hm : ms.find? (fun x => x.table = m.table) = some m) (hv : m.table ∈ values)
+    (r : RelDecl) (hr : r ∈ m.rels) (hi : r.ignoreMigration = false) (n p : Str)
+    (hc : r.con = some (n, m.table, p)) (hp : p ≠ m.table) :
+    p ∈ reorderModelsOpt o ms values true :=
+  reorderOpt_parent_added o ho ms values m hm hv r hr hi n p hc hp
+
+/-- whatever the foreign-key switch says: the join table of a many2many relation of a requested model is auto-added,
+    and so is everything the join table's own constraints reference (both ends of the relation) -/
+theorem C20_join_table_auto_added_whatever_fk_option (o : MigOpts) (ho : o.ignoreRel = false) (ms : List ModelRels)
+    (values : List Str) (m : ModelRels) (hm : ms.find? (fun x => x.table = m.table) = some m) (hv : m.table ∈ values)
+    (r : RelDecl) (hr : r ∈ m.rels) (hi : r.ignoreMigration = false) (j : Str) (hj : r.join = some j)
+    (hjm : j ∈ ms.map (·.table)) :
+    j ∈ reorderModelsOpt o ms values true ∧
+    ∀ d ∈ depsOf (ms.map (relDeps o)) j, d ∈ reorderModelsOpt o ms values true :=
+  reorderOpt_join_added o ho ms values m hm hv r hr hi j hj hjm
+
+/-- `IgnoreRelationshipsWhenMigrating`: nothing but the requested models is listed -/
+theorem C20_ignore_relationships_only_requested (o : MigOpts) (ho : o.ignoreRel = true) (ms : List ModelRels)
+    (values : List Str) (autoAdd : Bool) :
+    ∀ t ∈ reorderModelsOpt o ms values autoAdd, t ∈ values := reorderOpt_ignore o ho ms values autoAdd
+
+/-- the two switches touch the relation constraints of a model and nothing else of what AutoMigrate reconciles for its
+    table: fields, check constraints and indexes are the same under every configuration; the relation constraints are
+    the owned ones, or none when either switch is on -/
+theorem C20_options_touch_relation_constraints_only (o : MigOpts) (m : ModelRels) (fields : List FieldDecl)
+    (checks indexes : List Str) :
+    (modelDeclOpt o m fields checks indexes).table = m.table ∧
+    (modelDeclOpt o m fields checks indexes).fields = fields ∧
+    (modelDeclOpt o m fields checks indexes).checks = checks ∧
+    (modelDeclOpt o m fields checks indexes).indexes = indexes ∧
+    (modelDeclOpt o m fields checks indexes).fks =
+      (if o.disableFK = true ∨ o.ignoreRel = true then [] else ownedRelFks m.table m.rels) := by
+  refine ⟨rfl, rfl, rfl, rfl, ?_⟩
+  unfold modelDeclOpt fksOpt
+  cases o.disableFK <;> cases o.ignoreRel <;> simp
+
+/-- REGENERATED FACTS (extract/gen_c20.go, every run): in package migrator the two switches are read in `if` conditions
+    only; `DisableForeignKeyConstraintWhenMigrating` is read exactly in the guard `!DisableFK && !IgnoreRel` around the
+    relation-constraint loops of `AutoMigrate` and `CreateTable`, whose bodies call nothing but constraint
+    parsing / lookup / creation; `ReorderModels` has exactly one guarded block, under `!IgnoreRelationshipsWhenMigrating`
+    alone — the premise under which `relVisited` / `fksOpt` transcribe the code. -/
+theorem C20_option_read_sites :
+    Gen.migOptOther = [] ∧
+    (∀ s ∈ Gen.migOptSites, s.readsFK = true →
+      (s.fn = "AutoMigrate" ∨ s.fn = "CreateTable") ∧
+      s.cond = "!m.DB.DisableForeignKeyConstraintWhenMigrating && !m.DB.IgnoreRelationshipsWhenMigrating" ∧
+      "ParseConstraint" ∈ s.calls ∧
+      (∀ c ∈ s.calls, c ∈ ["ParseConstraint", "HasConstraint", "CreateConstraint", "Build", "append", "Migrator"])) ∧
+    (∀ s ∈ Gen.migOptSites, s.fn = "ReorderModels" →
+      s.readsFK = false ∧ s.cond = "!m.DB.IgnoreRelationshipsWhenMigrating" ∧ "parseDependence" ∈ s.calls) ∧
+    (Gen.migOptSites.map (·.fn)) = ["AutoMigrate", "CreateTable", "ReorderModels"] := by decide
+
+/-- OBSERVATION on the unchanged code (not demanded by the oracle): Go's `for _, name := range modelNames` evaluates the
+    slice once, so a join table discovered while a DEPENDENCY is auto-added in phase 2 is never listed — `thing`
+    belongs to `owner`, `owner` has a many2many through `owner_tags`: AutoMigrate(thing) lists `owner` but neither
+    `owner_tags` nor `tags` (reproduced on the real code: tables [owners things]) -/
+theorem C20_reorder_join_behind_dependency_counterexample :
+    reorderModels exQuirk [exThing] true = [exOwner, exThing] := reorder_join_behind_dependency_not_added
+
+/-- non-vacuity: under `DisableForeignKeyConstraintWhenMigrating` the article's parent, join table and far side are listed;
+    under `IgnoreRelationshipsWhenMigrating` only the article -/
+example : reorderModelsOpt { disableFK := true, ignoreRel := false } exRels [exArticle] true =
+    [exAuthor, exArticle, exTag, exArticleTags] := exRels_disableFK
+example : reorderModelsOpt { disableFK := true, ignoreRel := true } exRels [exArticle] true = [exArticle] := exRels_ignoreRel
 
 end Gorm.Mig
